@@ -27,7 +27,17 @@ import (
 	"time"
 )
 
-const verifDir = "/verif"
+// verifDir / repoDir default to the registered locations; the environment overrides exist only so a
+// private copy of the harness can be developed against a scratch worktree.
+var verifDir = envOr("VERIF_DIR", "/verif")
+var repoDir = envOr("VERIF_ELKPATH", "/repo")
+
+func envOr(k, d string) string {
+	if v := os.Getenv(k); v != "" {
+		return v
+	}
+	return d
+}
 
 // Check describes one property check.
 type Check struct {
@@ -558,6 +568,9 @@ func runSharded(c *Ctx) {
 		if nshards > 16 {
 			nshards = 16
 		}
+	}
+	if v, err := strconv.Atoi(os.Getenv("VERIF_SHARDS")); err == nil && v > 0 && v < nshards {
+		nshards = v // development aid: the case list and per-case PRNG do not depend on the shard count
 	}
 	n := ch.NumCases(c.Tier)
 	if n < nshards {
